@@ -69,7 +69,8 @@ var Check = &run.Check{
 
 // ---- model -> coca
 
-func toCoca(m *archgen.Model) ([]core_domain.CodeDataStruct, map[string]core_domain.CodeDataStruct, []core_domain.CodeDataStruct) {
+// ToCoca converts a generated architecture model into coca's code model, identifier map and identifier list (also used by C08).
+func ToCoca(m *archgen.Model) ([]core_domain.CodeDataStruct, map[string]core_domain.CodeDataStruct, []core_domain.CodeDataStruct) {
 	var deps []core_domain.CodeDataStruct
 	for _, t := range m.Types {
 		ds := core_domain.CodeDataStruct{NodeName: t.Name, Package: t.Pkg, Type: "Class",
@@ -268,7 +269,7 @@ func runCase(c *run.Ctx, o *run.Outcome) {
 	}
 	m := archgen.Generate(r.Fork(), opts)
 	fr := r.Fork()
-	deps, idmap, idents := toCoca(m)
+	deps, idmap, idents := ToCoca(m)
 
 	// ---- expectations (from the statement)
 	want0 := oracle.ArchExpected(m)
